@@ -648,7 +648,7 @@ func genGBFeats(t *rapid.T, n, L int, allowQuote bool) []Feat {
 
 func c01GenRec(t *rapid.T, allowQuote bool) gbRec {
 	r := gbRec{
-		Locus: genWord(t, 16),
+		Locus: genWord(t, rapid.SampledFrom([]int{16, 16, 16, 40}).Draw(t, "locuslen")),
 		Mol:   rapid.SampledFrom([]string{"DNA", "RNA", "AA", "ss-DNA", "ds-DNA"}).Draw(t, "mol"),
 		Circ:  rapid.Bool().Draw(t, "circ"),
 		Div:   rapid.SampledFrom([]string{"", "BCT", "SYN", "CON", "PLN"}).Draw(t, "div"),
@@ -887,6 +887,28 @@ func TestC01(t *testing.T) {
 		}
 		eb.done(thorough())
 		st.note("read-boundary-sweep: %d of 4096 alignments of the second record covered", len(seen))
+	}
+	// the LOCUS line: every name length 1..40 against lengths of 1..8 digits (residues, or the span of a CONTIG-only
+	// record), molecules, topologies and divisions - a fixed-column line whose fields must stay apart
+	{
+		el := enumPart(t, c01Prop, st, "locus-line")
+		for nameLen := 1; nameLen <= 40; nameLen++ {
+			name := strings.Repeat("LOCUSNAME_", 4)[:nameLen]
+			for k, n := range []int{0, 1, 9, 10, 99, 100, 999, 1000, 1234} {
+				mol := []string{"DNA", "ss-DNA", "AA", "RNA", "ds-DNA"}[(nameLen+k)%5]
+				rec := gbRec{Locus: name, Mol: mol, Circ: (nameLen+k)%2 == 0, Div: []string{"", "SYN", "BCT"}[(nameLen+k)%3], Date: [3]int{2020, 2, 29}, Def: "l", ResLen: n, ResSeed: n}
+				if !el.try(c01Case{Mode: "record", Recs: []gbRec{rec}}) {
+					return
+				}
+			}
+			for _, span := range []int{99999, 100000, 4641652, 12345678} {
+				rec := gbRec{Locus: name, Mol: "DNA", Div: "CON", Date: [3]int{2018, 10, 11}, Def: "c", Contig: &gbContig{Acc: "U00096.3", Head: 0, Tail: span}}
+				if !el.try(c01Case{Mode: "record", Recs: []gbRec{rec}}) {
+					return
+				}
+			}
+		}
+		el.done(true)
 	}
 	// every qualifier name of the three INSDC classes (and unknown names), with an empty, a plain, a two-line and a
 	// three-line value, alone and next to a second qualifier of another class
